@@ -5,7 +5,7 @@ Open Scope Z_scope.
 Definition as_layout (v : val) : layout :=
   let z := as_int v in if z =? 0 then LDefault else if z =? 1 then LReverse else LReverseList.
 Definition as_info (v : val) : info_style :=
-  let z := as_int v in if z =? 0 then IDefault else if z =? 1 then IInline else IHidden.
+  let z := as_int v in if z =? 0 then IDefault else if z =? 1 then IInline else if z =? 2 then IHidden else IInlineRight.
 (* [w, h, layout, info, sep, [header...], [hlines...], multi] *)
 Definition as_cfg (v : val) : cfg :=
   mkCfg (as_nat (arg v 0)) (as_nat (arg v 1)) (as_layout (arg v 2)) (as_info (arg v 3)) (as_bool (arg v 4))
@@ -14,13 +14,13 @@ Definition as_match (v : val) : nat * str := (as_nat (arg v 0), as_str (arg v 1)
 Definition as_nats (v : val) : list nat := map as_nat (as_list v).
 (* [query, [[index, text]...], total, cy, off, [selected index...]] *)
 Definition as_view (v : val) : view :=
-  mkView (as_str (arg v 0)) (map as_match (as_list (arg v 1))) (as_nat (arg v 2)) (as_nat (arg v 3)) (as_nat (arg v 4))
+  mkView (as_str (arg v 6)) (as_str (arg v 0)) (map as_match (as_list (arg v 1))) (as_nat (arg v 2)) (as_nat (arg v 3)) (as_nat (arg v 4))
          (as_nats (arg v 5)).
 Definition as_reqs (v : val) : reqs :=
   mkReqs (as_bool (arg v 0)) (as_bool (arg v 1)) (as_bool (arg v 2)) (as_bool (arg v 3)) (as_bool (arg v 4)).
-(* [query, matches, total, cy, sel, reqs] *)
+(* [query, matches, total, cy, sel, reqs, prompt] *)
 Definition as_upd (v : val) : upd :=
-  mkUpd (as_str (arg v 0)) (map as_match (as_list (arg v 1))) (as_nat (arg v 2)) (as_nat (arg v 3)) (as_nats (arg v 4))
+  mkUpd (as_str (arg v 6)) (as_str (arg v 0)) (map as_match (as_list (arg v 1))) (as_nat (arg v 2)) (as_nat (arg v 3)) (as_nats (arg v 4))
         (as_reqs (arg v 5)).
 
 Definition vrows (rs : list row) : val := VL (map vstr rs).
